@@ -156,14 +156,15 @@ func tryRecursiveValidate(val reflect.Value, opts *options, validators []validat
 		return nil
 	}
 
+	// look at the value itself: val may be an interface or pointer holding it
 	var err error
-	switch chaseValue(val).Kind() {
+	switch v := chaseValue(val); v.Kind() {
 	case reflect.Struct:
-		err = validateStruct(val, opts)
+		err = validateStruct(v, opts)
 	case reflect.Map:
-		err = validateMap(val, opts)
+		err = validateMap(v, opts)
 	case reflect.Array, reflect.Slice:
-		err = validateArray(val, opts)
+		err = validateArray(v, opts)
 	}
 
 	if err != nil {
